@@ -1,6 +1,7 @@
 package main
 
 import (
+	"go/constant"
 	"fmt"
 	"go/ast"
 	"go/token"
@@ -635,6 +636,7 @@ func ruleUnloadRollback(c *Ctx) {
 	}
 	f := c.P.NewLitCFG(info, "pkg/core/interop/contract.callExFromNative$onUnload", lit)
 	pos := c.P.Pos(lit.Pos())
+	ruleWrapMask(c, fd)
 	wrappedT := symAssume("local:wrapped", true)
 	// (a) persist only on commit
 	persist := f.CallSites(symDAOPersist)
@@ -815,4 +817,75 @@ func ruleResetComplete(c *Ctx) {
 		}
 	}
 	c.Floor("VM fields written during execution", n, 5)
+}
+
+// ruleWrapMask: a call gets its own rollback scope (private DAO layer + notification baseline) whenever its flags let
+// the callee leave something to roll back: contract storage (WriteStates) or notifications (AllowNotify). The flag test
+// in the definition of `wrapped` is a constant mask; it must contain both bits.
+func ruleWrapMask(c *Ctx, fd *FuncDecl) {
+	info := fd.Pkg.TypesInfo
+	key := "callExFromNative.scope-mask"
+	cf := c.P.Pkg("pkg/smartcontract/callflag")
+	if cf == nil {
+		c.Lost(key+".anchor", "package callflag not found")
+		return
+	}
+	bit := func(name string) (int64, bool) {
+		k, ok := cf.Types.Scope().Lookup(name).(*types.Const)
+		if !ok {
+			return 0, false
+		}
+		v, ok := constant.Int64Val(k.Val())
+		return v, ok
+	}
+	ws, ok1 := bit("WriteStates")
+	an, ok2 := bit("AllowNotify")
+	if !ok1 || !ok2 {
+		c.Lost(key+".anchor", "callflag.WriteStates / AllowNotify not found")
+		return
+	}
+	need := ws | an
+	var def ast.Expr
+	ast.Inspect(fd.Decl.Body, func(n ast.Node) bool {
+		as, ok := n.(*ast.AssignStmt)
+		if !ok || len(as.Lhs) != 1 || len(as.Rhs) != 1 {
+			return true
+		}
+		if id, ok := as.Lhs[0].(*ast.Ident); ok && id.Name == "wrapped" && def == nil {
+			def = as.Rhs[0]
+		}
+		return true
+	})
+	if def == nil {
+		c.Lost(key+".def", "no definition of the rollback-scope decision (`wrapped`) in callExFromNative")
+		return
+	}
+	// find `<flags> & MASK != 0` with MASK constant
+	found := false
+	ast.Inspect(def, func(n ast.Node) bool {
+		be, ok := n.(*ast.BinaryExpr)
+		if !ok || be.Op != token.AND {
+			return true
+		}
+		for _, side := range []ast.Expr{be.X, be.Y} {
+			tv, ok := info.Types[side]
+			if !ok || tv.Value == nil {
+				continue
+			}
+			mask, ok := constant.Int64Val(constant.ToInt(tv.Value))
+			if !ok {
+				continue
+			}
+			found = true
+			if mask&need == need {
+				c.OK(key, c.P.Pos(be.Pos()), fmt.Sprintf("the rollback-scope test masks the call flags with %#x, which contains WriteStates|AllowNotify (%#x)", mask, need))
+			} else {
+				c.Fail(key, c.P.Pos(be.Pos()), fmt.Sprintf("the rollback-scope test masks the call flags with %#x, which lacks part of WriteStates|AllowNotify (%#x): a callee allowed to do the missing kind of change runs without a scope of its own, so what it did before throwing stays after the caller catches the exception", mask, need))
+			}
+		}
+		return true
+	})
+	if !found {
+		c.Unclassified(key, c.P.Pos(def.Pos()), "the rollback-scope decision does not test the call flags against a constant mask")
+	}
 }
